@@ -463,7 +463,8 @@ SPEC = {
              'distinct earlier operands lower index first, type code in basis, outputs at gates, table agrees on every defined entry, '
              'every imposed constraint, normalisation) and get_cnf() equisatisfiable with the verdict. Completeness: on NoSolutionError '
              'an own depth-first enumeration of the same canonical space must find nothing (spaces above the bound are inconclusive). '
-             'Non-trivial: found with >=2 gates, or NoSolution confirmed over >=100 candidates.'),
+             'Non-trivial: found with >=2 gates, or NoSolution confirmed over >=100 candidates.'
+             ' Added during the build: models answering 0 / 1 instead of False / True, 10-13 outputs, the same finder asked twice, transported models, refused constraint calls incl. descending predecessor pairs derived from the witness circuit (nothing of a refused call may stick).'),
     'assumptions': ['pysat replaced by a z3-backed stand-in: SAT models re-checked, UNSAT answers cross-checked by the reference enumeration'],
     'subs': [Sub('synthesis', cases, check_synthesis, {'quick': 2400, 'thorough': 72000}, shrink_quick=False)],
     'required_classes': {'synthesis': ['found', 'no_solution_confirmed', 'fix:first', 'fix:second', 'fix:both', 'forbid_wire',
